@@ -13,6 +13,10 @@ META = dict(
 
 
 def run(ctx):
+    import importlib.util, os as _os
+    _sp = importlib.util.spec_from_file_location("_writers", _os.path.join(_os.path.dirname(__file__), "_writers.py"))
+    _w = importlib.util.module_from_spec(_sp); _sp.loader.exec_module(_w)
+    _w.run(ctx, ['x/nodes/keeper', 'x/nodes', 'x/apps/keeper', 'x/apps'])
     ctx.lean_proofs("Props.C24")
     _nodes.run_nodes(ctx, "C24", "c24")
 
